@@ -79,6 +79,10 @@ func (d *Decoder) unmarshal(val reflect.Value, tagType byte) error {
 	if u != nil {
 		return u.UnmarshalNBT(tagType, d.r)
 	}
+	if val.Kind() == reflect.Interface && val.NumMethod() != 0 {
+		// only the empty interface can hold what a tag decodes to (reflect.Set would panic)
+		return errors.New("cannot parse NBT into the non-empty interface type " + val.Type().String())
+	}
 
 	switch tagType {
 	default:
